@@ -91,12 +91,16 @@ def grid_points(N, code):
 # --------------------------------------------------------------------------
 
 
+#  element type of the observable handed to the library (family `dtype`)
+XDTYPE = "float64"
+
+
 def _new(cls, X, T, lat, lon, cycle, anomalies, window=None, time=None):
     from pyunicorn.core import Data, GeoGrid
     from pyunicorn.climate import ClimateData
     tseq = np.arange(float(T)) if time is None else np.array(time, dtype=float)
     grid = GeoGrid(tseq, np.array(lat), np.array(lon), silence_level=3)
-    Xa = np.array(X, dtype=float)
+    Xa = np.array(X, dtype=XDTYPE)
     if cls == "Data":
         return Data(Xa, grid, window=window, silence_level=3)
     return ClimateData(Xa, grid, time_cycle=cycle, anomalies=anomalies,
@@ -625,8 +629,24 @@ def fam_scale(case):
     return _result(d, repr(sig), ev, len(set(map(repr, sig))) < 3, ntr, 1)
 
 
+def fam_dtype(case):
+    """The window family on an observable given as integers (float32 input
+    is computed in single precision by numpy and not judged here; the
+    values 0..T*N-1 are exact in every type)."""
+    global XDTYPE
+    XDTYPE = case[-1]
+    try:
+        r = fam_window(case[:-1])
+    finally:
+        XDTYPE = "float64"
+    for v in r["viol"]:
+        v["key"] += ":" + case[-1]
+    r["sig"] = (r["sig"], case[-1])
+    return r
+
+
 FAMILIES = {"window": fam_window, "hist": fam_hist, "months": fam_months,
-            "scale": fam_scale}
+            "scale": fam_scale, "dtype": fam_dtype}
 
 
 # --------------------------------------------------------------------------
@@ -696,6 +716,11 @@ def run(ctx):
                 cases.append(["Data", T, N, code, 1, False])
                 cases.append(["ClimateData", T, N, code,
                               CYCLES[(code + T) % 4], bool((code // 4) % 2)])
+    dcases = [c + [dt] for c in cases[::(7 if thorough else 29)]
+              if c[0] == "ClimateData" or thorough
+              for dt in ("int64", "int32", "int16")]
+    ctx.explore("dtype", dcases, desc="the window family on an integer "
+                "observable (int64, int32, int16)")
     ctx.explore("window", cases, desc="all 125 menu windows in sequence per "
                 "grid x T x class")
     # ---- hist
